@@ -31,6 +31,8 @@ type pkgInfo struct {
 	funcs  map[string]*ast.FuncDecl // key: Recv.Name or Name
 	consts map[string]*big.Int
 	order  []string
+	// static type of the constants and integer variables that have one ("u32", "int", ...)
+	constTypes map[string]string
 }
 
 func fail(format string, a ...interface{}) {
@@ -60,7 +62,7 @@ func funcKey(fd *ast.FuncDecl) string {
 }
 
 func load(dir string) *pkgInfo {
-	p := &pkgInfo{files: map[string]*ast.File{}, funcs: map[string]*ast.FuncDecl{}, consts: map[string]*big.Int{}}
+	p := &pkgInfo{files: map[string]*ast.File{}, funcs: map[string]*ast.FuncDecl{}, consts: map[string]*big.Int{}, constTypes: map[string]string{}}
 	names, _ := filepath.Glob(filepath.Join(dir, "*.go"))
 	sort.Strings(names)
 	for _, n := range names {
@@ -175,7 +177,80 @@ func (p *pkgInfo) evalConst(e ast.Expr) (*big.Int, bool) {
 	return nil, false
 }
 
+// sizeOfUint16/32/64 are package variables set in init() from
+// reflect.TypeOf(v).Size() with `var v uintNN` declared just before: their
+// values are fixed by the language, the translator evaluates them.
+func (p *pkgInfo) collectSizes() {
+	for _, f := range p.files {
+		for _, d := range f.Decls {
+			fd, ok := d.(*ast.FuncDecl)
+			if !ok || fd.Name.Name != "init" || fd.Recv != nil || fd.Body == nil {
+				continue
+			}
+			locals := map[string]string{}
+			for _, s := range fd.Body.List {
+				switch x := s.(type) {
+				case *ast.DeclStmt:
+					if gd, ok := x.Decl.(*ast.GenDecl); ok {
+						for _, sp := range gd.Specs {
+							vs := sp.(*ast.ValueSpec)
+							if id, ok := vs.Type.(*ast.Ident); ok {
+								for _, n := range vs.Names {
+									locals[n.Name] = id.Name
+								}
+							}
+						}
+					}
+				case *ast.AssignStmt:
+					if len(x.Lhs) != 1 || len(x.Rhs) != 1 {
+						continue
+					}
+					id, ok := x.Lhs[0].(*ast.Ident)
+					if !ok {
+						continue
+					}
+					// int(reflect.TypeOf(v).Size())
+					conv, ok := x.Rhs[0].(*ast.CallExpr)
+					if !ok || len(conv.Args) != 1 {
+						continue
+					}
+					if c, ok := conv.Fun.(*ast.Ident); !ok || c.Name != "int" {
+						continue
+					}
+					size, ok := conv.Args[0].(*ast.CallExpr)
+					if !ok {
+						continue
+					}
+					sel, ok := size.Fun.(*ast.SelectorExpr)
+					if !ok || sel.Sel.Name != "Size" {
+						continue
+					}
+					tof, ok := sel.X.(*ast.CallExpr)
+					if !ok || len(tof.Args) != 1 {
+						continue
+					}
+					if ts, ok := tof.Fun.(*ast.SelectorExpr); !ok || ts.Sel.Name != "TypeOf" {
+						continue
+					}
+					v, ok := tof.Args[0].(*ast.Ident)
+					if !ok {
+						continue
+					}
+					if w := map[string]int64{"uint16": 2, "uint32": 4, "uint64": 8}[locals[v.Name]]; w != 0 {
+						if _, done := p.consts[id.Name]; !done {
+							p.consts[id.Name] = big.NewInt(w)
+							p.constTypes[id.Name] = "int"
+							p.order = append(p.order, id.Name)
+						}
+					}
+				}
+			}
+		}
+	}
+}
+
 func (p *pkgInfo) collectConsts() {
+	p.collectSizes()
 	// several passes so that forward references between files resolve
 	for pass := 0; pass < 4; pass++ {
 		var fnames []string
@@ -207,6 +282,11 @@ func (p *pkgInfo) collectConsts() {
 						if v, ok := p.evalConst(vs.Values[i]); ok && v.Sign() >= 0 {
 							p.consts[name.Name] = v
 							p.order = append(p.order, name.Name)
+							if id, ok := vs.Type.(*ast.Ident); ok {
+								if ty := map[string]string{"uint64": "u64", "uint32": "u32", "uint16": "u16", "int": "int"}[id.Name]; ty != "" {
+									p.constTypes[name.Name] = ty
+								}
+							}
 						}
 					}
 				}
@@ -1313,7 +1393,7 @@ func main() {
 	p.collectConsts()
 	var b strings.Builder
 	b.WriteString("(* Generated.v - regenerated from " + *repo + " by /verif/translator on every run. DO NOT EDIT. *)\n")
-	b.WriteString("From Ice Require Import Base Lock Conc GenLib.\nOpen Scope N_scope.\n\n(* ---- 1. constants ---- *)\n")
+	b.WriteString("From Coq Require Import ZArith.\nFrom Ice Require Import Base Lock Conc Container GenLib.\nOpen Scope N_scope.\n\n(* ---- 1. constants ---- *)\n")
 	sort.Strings(p.order)
 	for _, n := range p.order {
 		b.WriteString(fmt.Sprintf("Definition c_%s : N := %s.\n", n, p.consts[n].String()))
@@ -1329,6 +1409,10 @@ func main() {
 	b.WriteString("(* ---- 2b. cursor loops ---- *)\n")
 	for _, f := range []string{"memUvarintReader.ReadUvarint", "memUvarintReader.SkipUvarint"} {
 		b.WriteString(p.translateCursorLoop(f) + "\n")
+	}
+	b.WriteString("(* ---- 2c. loaders of the index structures ---- *)\n")
+	for _, f := range []string{"parseFooter", "Segment.getDocStoredOffsetsOnly", "Segment.loadStoredFieldChunk", "Segment.loadFields", "Segment.loadFieldDocValueReader"} {
+		b.WriteString(p.translateReader(f) + "\n")
 	}
 	b.WriteString("(* ---- 3. lock skeletons ---- *)\n")
 	var keys []string
